@@ -43,7 +43,7 @@ def validate(sessions: list[dict], tmp: str):
         p = os.path.join(tmp, f"mtrace_{i}.json")
         slim = [{"sid": s["sid"], "events": s["events"]} for s in sh]
         with open(p, "w") as f:
-            json.dump({"sessions": slim}, f)
+            json.dump({"sessions": slim, "expected_states": sum(len(x["events"]) + 1 for x in slim)}, f)
         paths.append(p)
     with mp.Pool(len(paths)) as pool:
         res = pool.map(_validate_shard, paths)
@@ -64,10 +64,45 @@ def classify(pid: str, clause: str, s: dict, l: int) -> str:
     else:
         site = f"{ev['op']}({kind(ev['a'])})"
     extra = (":" + ev["exc"]) if ev["exc"] else ""
+    if clause in ("and_table", "or_table", "evaluate_vs_reference", "reparse_table") and _only_inlist_substring_envs(s, l, clause):
+        # evaluate() reads `python_version in "..."` as substring containment (PEP 508), the algebra
+        # reads the literal as a set of release series: DESIGN section 6 item 12
+        return f"{pid}:in-list:env-substring-of-list-not-element"
     if pid == "C15" and clause == "normal_form":
         # name the defect of the shape, not the operands: that is what distinguishes findings
         return f"C15:{ev['op']}:normal_form:{nf_reason(ev['shape'])}"
     return f"{pid}:{site}:{clause}{extra}:{_feature(s, l)}"
+
+
+def _only_inlist_substring_envs(s: dict, l: int, clause: str) -> bool:
+    """True iff every environment on which the clause fails has a python_version that is a substring
+    of some in-list literal of the session without being one of its elements."""
+    import re
+    ev = s["events"][l - 1]
+    tab = ev["table"]
+    if clause == "evaluate_vs_reference":
+        exp = ev["ref"]
+    elif clause == "reparse_table":
+        exp = s["events"][ev["a"] - 1]["table"]
+    else:
+        ta, tb = s["events"][ev["a"] - 1]["table"], s["events"][ev["b"] - 1]["table"]
+        exp = [(x and y) if clause == "and_table" else (x or y) for x, y in zip(ta, tb)]
+    bad = [i for i in range(len(tab)) if tab[i] != exp[i]]
+    if not bad:
+        return False
+    lists = []
+    for e in s["events"]:
+        for t in (e.get("text", ""), e.get("str", "")):
+            lists += re.findall(r'python_version\s+(?:not in|in)\s+"([^"]*)"', t)
+    if not lists:
+        return False
+    for i in bad:
+        pv = s["envs"][i].get("python_version")
+        if pv is None:
+            return False
+        if not any((pv in lit) and (pv not in re.split(r"[,\s]+", lit)) for lit in lists):
+            return False
+    return True
 
 
 def nf_reason(t: dict) -> str:
